@@ -40,6 +40,14 @@ type Waiver struct {
 	used   bool
 }
 
+type CutSpec struct {
+	Text   string
+	Ord    int
+	Havoc  []string
+	Clause *Clause
+	used   bool
+}
+
 type AssertSpec struct {
 	Where  string // "after" | "before"
 	Text   string // snippet of source line
@@ -68,6 +76,7 @@ type Contract struct {
 	NoSafety  bool
 	Uses      []string // axiom families to instantiate
 	Assigns   []string
+	Cuts      []*CutSpec
 }
 
 type SplitSpec struct {
@@ -92,7 +101,7 @@ type ContractFile struct {
 	Lemmas []*Lemma
 }
 
-var kwRe = regexp.MustCompile(`^(func|lemma|mode|returns|logical|requires|ensures|loop|call|waive|panics|props|trusted|assert|assume|split|nosafety|forall|hyp|holds|export|uses|assigns)\b`)
+var kwRe = regexp.MustCompile(`^(cut|func|lemma|mode|returns|logical|requires|ensures|loop|call|waive|panics|props|trusted|assert|assume|split|nosafety|forall|hyp|holds|export|uses|assigns)\b`)
 
 func parseContractFile(path string) (*ContractFile, error) {
 	f, err := os.Open(path)
@@ -315,6 +324,26 @@ func parseContractFile(path string) (*ContractFile, error) {
 				return nil, err
 			}
 			cur.Asserts = append(cur.Asserts, &AssertSpec{Where: m[1], Text: m[2], Ord: ord, Clause: c, Assume: kw == "assume"})
+		case "cut":
+			m := regexp.MustCompile(`^before\s+"([^"]*)"(#(\d+))?\s*:\s*havoc\s+([^:]*):\s*(.*)$`).FindStringSubmatch(rest)
+			if m == nil {
+				return nil, fail("bad cut clause")
+			}
+			ord := 1
+			if m[3] != "" {
+				ord, _ = strconv.Atoi(m[3])
+			}
+			c, err := mkClause(m[5], it.line)
+			if err != nil {
+				return nil, err
+			}
+			var hv []string
+			for _, h := range strings.Split(m[4], ",") {
+				if h = strings.TrimSpace(h); h != "" {
+					hv = append(hv, h)
+				}
+			}
+			cur.Cuts = append(cur.Cuts, &CutSpec{Text: m[1], Ord: ord, Havoc: hv, Clause: c})
 		case "split":
 			m := regexp.MustCompile(`^([A-Za-z_][A-Za-z0-9_]*)\s+in\s+(-?\d+)\s*\.\.\s*(-?\d+)$`).FindStringSubmatch(rest)
 			if m == nil {
